@@ -40,6 +40,18 @@ def _mutate(name):
         exec('from __future__ import annotations\n' + new, ns)
         ct.BaseTemplate.digest = ns['digest']
         return
+    if name == 'empty_tag_shares_scope':
+        from chameleon import parser as ps
+        import inspect
+        import textwrap
+        src_fn = ps.ElementParser.visit_empty_tag
+        code = textwrap.dedent(inspect.getsource(src_fn)).replace('namespace = self.namespaces[-1].copy()',
+                                                                  'namespace = self.namespaces[-1]')
+        assert code != textwrap.dedent(inspect.getsource(src_fn))
+        ns = dict(src_fn.__globals__)
+        exec(code, ns)
+        ps.ElementParser.visit_empty_tag = ns['visit_empty_tag']
+        return
     if name == 'TextSE_narrow':       # lexer no longer accepts '&' in text
         tk.re_xml_spe = re.compile(tk.collector.res['XML_SPE'].replace('[^<]+|', '[^<&]+|', 1))
     elif name == 'iter_xml_pos':      # token position off by one after the first token
@@ -394,3 +406,33 @@ def pickx(table, idx):
         if idx == n:
             return table[n]
     raise IndexError(idx)
+
+
+# ---- a namespace declaration on an empty element ends with that element ----------------------------------
+NS_URIS = ['http://xml.zope.org/namespaces/tal', 'http://xml.zope.org/namespaces/metal',
+           'http://xml.zope.org/namespaces/i18n', 'urn:foreign']
+
+
+def empty_tag_scope(u: int, w: int, sp: int) -> bool:
+    """
+    pre: 0 <= u < 4 and 0 <= w < 3 and 0 <= sp < 2
+    post: _
+    """
+    uri = pickx(NS_URIS, u)
+    decl = ' xmlns:q="%s"' % uri
+    empty = '<x%s%s/>' % (decl, ' ' if sp else '')
+    after = pickx(['<q:y>text</q:y>', '<y q:content="v">text</y>', '<y>text</y><q:z k="1"/>'], w)
+    doc = '<r>' + empty + after + '</r>'
+    # the declaration of a template-language namespace is not copied; nothing else changes: the prefix is
+    # not bound for the siblings of the empty element, so what uses it there is ordinary markup
+    want = doc.replace(decl, '') if u < 3 else doc
+    try:
+        out = emit_text(doc)
+    except KeyError as exc:
+        # an attribute with a prefix that is not bound is rejected (an element name is tolerated)
+        ok = w == 1 and 'Undefined namespace prefix' in str(exc)
+        return (not ok) if CFG.get('negate') else ok
+    except Exception:
+        return (not False) if CFG.get('negate') else False
+    ok = out == want and w != 1
+    return (not ok) if CFG.get('negate') else ok
